@@ -42,11 +42,20 @@ def ns(version):
                 Observer=Observer)
 
 
+_ERR_TYPES = {'runtime': RuntimeError, 'notimpl': NotImplementedError, 'value': ValueError, 'os': OSError}
+
+
+def _mk_err(sc, iid):
+    return _ERR_TYPES.get((sc or {}).get('error_type'), app.AppError)('E%02d' % iid)
+
+
 def gen_obs(rng, direction):
     count = _pick(rng, [(1, 0), (2, 1), (3, rng.randint(2, 6)), (1, rng.randint(7, 30))])
     sc = {'count': count, 'lens': [[rng.randint(1, 120), None]], 'kind': _pick(rng, [(3, 'plain'), (2, 'bp')])}
     if rng.random() < 0.15:
         sc['error_at'] = rng.randint(0, count)
+        # applications fail with all sorts of exception types
+        sc['error_type'] = _pick(rng, [(3, 'app'), (2, 'runtime'), (1, 'notimpl'), (1, 'value'), (1, 'os')])
     if direction == 'c':
         sc['start_idx'] = 1
     return sc
@@ -165,13 +174,13 @@ def _run(world, plan):
                 for k, it in enumerate(items):
                     if error_at is not None and k == error_at:
                         rec('error')
-                        observer.on_error(app.AppError('E%02d' % iid))
+                        observer.on_error(_mk_err(sc, iid))
                         return
                     rec('emit', idx=sc.get('start_idx', 0) + k)
                     observer.on_next(it)
                 if error_at is not None and error_at >= len(items):
                     rec('error')
-                    observer.on_error(app.AppError('E%02d' % iid))
+                    observer.on_error(_mk_err(sc, iid))
                     return
                 rec('complete')
                 observer.on_completed()
@@ -182,12 +191,12 @@ def _run(world, plan):
             for k, it in enumerate(items):
                 if error_at is not None and k == error_at:
                     rec('error')
-                    raise app.AppError('E%02d' % iid)
+                    raise _mk_err(sc, iid)
                 rec('emit', idx=sc.get('start_idx', 0) + k)
                 yield it
             if error_at is not None and error_at >= len(items):
                 rec('error')
-                raise app.AppError('E%02d' % iid)
+                raise _mk_err(sc, iid)
             rec('exhausted')
 
         def factory(backpressure):
